@@ -370,6 +370,7 @@ func (x *Engine) loopHeader(fr *Frame, li *loopInfo, st *State) {
 	}
 	// 2. havoc what the loop may write
 	keys, freshKeys, all := x.writeSet(fr, li)
+	loopPriv := x.loopPriv
 	if all {
 		// under the external-call policy "preserve-ghosts" unknown calls keep ghost state: only ghosts written by
 		// contracts called in the loop are forgotten
@@ -414,6 +415,9 @@ func (x *Engine) loopHeader(fr *Frame, li *loopInfo, st *State) {
 				x.bumpEpochOnce(st, li)
 			}
 		}
+	}
+	for _, k := range loopPriv {
+		x.havocKey(st, k)
 	}
 	for _, ins := range h.Instrs {
 		phi, ok := ins.(*ssa.Phi)
@@ -907,6 +911,36 @@ func (x *Engine) writeSet(fr *Frame, li *loopInfo) (map[string]bool, map[string]
 	}
 	for k := range arb {
 		delete(freshOnly, k)
+	}
+	// private cells: forgotten at the loop head when the loop stores to one, or runs a function literal (which may)
+	x.loopPriv = nil
+	touched := false
+	for _, b := range fr.fn.Blocks {
+		if !li.blocks[b] {
+			continue
+		}
+		for _, ins := range b.Instrs {
+			switch u := ins.(type) {
+			case *ssa.Store:
+				switch u.Addr.(type) {
+				case *ssa.Alloc, *ssa.FreeVar:
+					touched = true
+				}
+			case ssa.CallInstruction:
+				if _, ok := u.Common().Value.(*ssa.MakeClosure); ok {
+					touched = true
+				}
+				if f, ok := u.Common().Value.(*ssa.Function); ok && f.Parent() != nil {
+					touched = true
+				}
+			}
+		}
+	}
+	if touched {
+		for k := range x.privAlloc {
+			x.loopPriv = append(x.loopPriv, k)
+		}
+		sort.Strings(x.loopPriv)
 	}
 	for k := range arb {
 		if _, ok := x.compSort[wrKey(k)]; ok && !strings.HasPrefix(k, "$") {
